@@ -77,8 +77,8 @@ func (t *loopTr) copyTarget(s *ast.ExprStmt) types.Object {
 		return nil
 	}
 	dst := unparen(c.Args[0])
-	if se, ok := dst.(*ast.SliceExpr); ok && se.Low == nil && se.High == nil && !se.Slice3 {
-		dst = se.X // a[:] of an array
+	if se, ok := dst.(*ast.SliceExpr); ok && se.High == nil && !se.Slice3 {
+		dst = se.X // a[:] of an array, or a window x[lo:]
 	}
 	return t.varOf(dst)
 }
@@ -411,6 +411,9 @@ func (t *loopTr) tupleCall(x *ast.CallExpr) (string, []lkind) {
 	}
 	sig := o.Type().(*types.Signature)
 	parts := []string{o.Name()}
+	if csig := loopSigs[sigKey(o.Pkg().Path(), o.Name())]; csig != nil {
+		parts = append(parts, t.depArgs(csig)...)
+	}
 	for _, a := range x.Args {
 		t.noAlias(a, "argument")
 		s, _ := t.expr(a)
@@ -505,8 +508,34 @@ func (t *loopTr) prefixResliceOf(s *ast.AssignStmt) (types.Object, ast.Expr) {
 
 func (t *loopTr) prefixReslice(s *ast.AssignStmt, o types.Object, hi ast.Expr) []binding {
 	name, ok := t.vars[o]
+	if _, isSlice := o.Type().Underlying().(*types.Slice); ok && isSlice && !t.params[o] && !t.isOutBuf(o) {
+		// a local slice (it owns its array): the prefix, as a value.  It now has spare capacity, which is not modelled:
+		// slicing it again with an upper bound, or passing it to a callee that does, is rejected (spareCap).
+		k := t.kindOf(o.Type(), s)
+		var n string
+		if tv := t.typeOf(hi); tv.Value != nil {
+			c := constant.ToInt(tv.Value)
+			if c.Kind() != constant.Int || constant.Sign(c) < 0 {
+				t.fail(hi, "bad constant slice bound")
+			}
+			n = c.ExactString()
+			t.addCheck(fmt.Sprintf("(decide (%s ≤ %s.length))", n, name))
+		} else {
+			e, ek := t.expr(hi)
+			if ek != kInt {
+				t.fail(hi, "slice bound of type %s", t.typeOf(hi).Type)
+			}
+			t.addCheck(fmt.Sprintf("(Go.sliceOK 0#64 %s %s.length)", e, name))
+			n = e + ".toNat"
+		}
+		if t.spareCap[o] {
+			t.fail(s, "`%s` was already cut with an upper bound: a second one is checked against the capacity, which is not modelled", name)
+		}
+		t.spareCap[o] = true
+		return []binding{{name: name, kind: k, val: fmt.Sprintf("(%s.take %s)", name, n), checks: t.takeChecks()}}
+	}
 	if _, isSlice := o.Type().Underlying().(*types.Slice); !ok || !t.params[o] || !isSlice {
-		t.fail(s, "reslicing `%s = %s[:k]` is supported for slice parameters only", o.Name(), o.Name())
+		t.fail(s, "reslicing `%s = %s[:k]` is supported for slice parameters and local slices only", o.Name(), o.Name())
 	}
 	top := false
 	for _, st := range t.fd.Body.List {
@@ -568,16 +597,24 @@ func (t *loopTr) copyStmt(s *ast.ExprStmt) []binding {
 	case t.params[o] || len(f.defs[o]) != 1 || f.plain[o] != 0 || !t.isMake(f.defs[o][0]):
 		t.fail(s, "copy into `%s`, which is not an output buffer, a field or a local slice created once by make", name)
 	}
+	var low ast.Expr
 	if _, isId := unparen(c.Args[0]).(*ast.Ident); !isId {
-		// c.f[:] as destination
-		if se, ok := unparen(c.Args[0]).(*ast.SliceExpr); !ok || se.Low != nil || se.High != nil || se.Slice3 {
+		// c.f[:] or a window x[lo:] as destination
+		se, ok := unparen(c.Args[0]).(*ast.SliceExpr)
+		if !ok || se.High != nil || se.Slice3 {
 			t.fail(s, "unsupported destination of copy")
 		}
+		low = se.Low
 	}
 	dk := t.kindOf(o.Type(), s)
+	// the source is evaluated before anything is copied; it may read the destination variable (value semantics)
 	src, sk := t.listArg(c.Args[1])
 	if sk != dk && !(dk == kBytes && sk == kString) {
 		t.fail(s, "copy of %s into %s", sk.lean(), dk.lean())
+	}
+	if low != nil {
+		n := t.sliceBound(low, name)
+		return []binding{{name: name, kind: dk, val: fmt.Sprintf("(%s.take %s ++ Go.copy (%s.drop %s) %s)", name, n, name, n, src), checks: t.takeChecks()}}
 	}
 	return []binding{{name: name, kind: dk, val: fmt.Sprintf("(Go.copy %s %s)", name, src), checks: t.takeChecks()}}
 }
